@@ -69,6 +69,8 @@ class Cfg:
 
 
 def lit_of(draw, fam, cfg, typed_ok=True):
+    if typed_ok and cfg.null_lits and draw(st.integers(0, 24)) == 0:
+        return ["lit", None, data.SRC_DTYPE[fam]]  # a typed null literal: lit(None, Float64()) ...
     if fam == "str":
         v = draw(data.strs(False, plain=cfg.plain_str))
     else:
